@@ -3,11 +3,60 @@ from vq.meta import _m
 _m(
     "C12",
     "exploration",
-    "placeholder",
-    [],
+    "Hypothesis draws four kinds of cases.  (surface) a polar coefficient dictionary over a random subset (1..14) of the 14 "
+    "(n, m) terms of orders 1..5 -- magnitudes log-uniform 1e-3..1e9 A ('raw') or balanced so that every order contributes "
+    "comparably at 30 mrad, random sign, 1 in 12 explicitly 0, angles in (-pi, pi] or left out (1 in 8) or given without "
+    "their magnitude (1 in 10) -- x wavelength 0.008..0.09 A x coefficients passed as python floats or 0-d float64 tensors x "
+    "optional Cartesian delta (1..8 labels) for merge_aberration_coefficients x 72 float64 evaluation points (63 generic, "
+    "log-uniform radius 1e-5..0.2 rad, uniform azimuth; 9 special: four half-axes, diagonals, |alpha| ~ 1e-9 and 1e-12) laid "
+    "out 1-D or 2-D, plus alpha = 0 exactly.  (cart) a Cartesian dictionary over 1..25 of the 25 labels in random order.  "
+    "(alias) a dictionary of 1..9 keys, one per canonical symbol, each symbol replaced by its alias (defocus, astigmatism, "
+    "astigmatism_angle, coma, coma_angle, Cs, C5) 3 times in 4, float or int values, optionally one unknown key, sent to one "
+    "of: validate_aberration_coefficients, standardize_aberration_coefs, ProbePixelated / ProbeParametric.from_params (keys "
+    "flat, nested under 'aberration_coefs' or mixed; 'defocus': None slot), probe_params re-assignment, check_probe_params, "
+    "DirectPtychography(aberration_coefs=), HyperparameterState.current_aberrations(override), HyperparameterState("
+    "optimized_keys=), fit_hyperparameters_cross_correlation(aberration_coefs=), grid_search_hyperparameters and "
+    "optimize_hyperparameters with OptimizationParameter ranges.  (fit) BF mask = disc of radius >= 1 px plus random extra "
+    "pixels on a 6..14 x 6..14 detector with isotropic or anisotropic reciprocal sampling, energy 20..300 keV, C10 = +-1..1e5 A, "
+    "|C12|/|C10| in [0, 0.9], phi12 in (-pi, pi], rotation in (-pi/2+0.01, pi/2-0.01) (3 in 4) or anywhere in [-pi, pi].  "
+    "Before the random search the 25 polar symbols and 25 Cartesian labels are each isolated once per wavelength/argument "
+    "type, and every alias is sent alone to every site (deterministic enumeration).  A case is NON-TRIVIAL when: surface/cart "
+    "-- at least one non-zero coefficient and either >= 2 non-zero coefficients of different radial orders or it is one of "
+    "the enumerated singletons; alias -- it contains at least one alias key or an unknown key (or is the reverse "
+    "C10 -> defocus site); fit -- C12 != 0.  distinct = SHA-1 of the canonical JSON of the whole case.",
+    [
+        "float64 comparisons are relative to the sum of the amplitudes of the terms at each point (2 pi/lambda sum |C_nm| "
+        "alpha^(n+1)/(n+1); for gradients 2 pi sum |C_nm| alpha^n (1 + m/(n+1))): tolerance 1e-10 of that unit; largest error "
+        "measured on the clean tree over 30 000 cases 8.2e-15 (surface/basis/conversions/merge) and 8.6e-16 (gradient)",
+        "agreement of two trigonometric polynomials of degree <= 6 on 72 generic points is taken as identity of the functions "
+        "(failure probability measure-zero); this is the PBT reading of 'symbolically for all reals'",
+        "the true gradient is torch autograd through aberration_surface in float64, with alpha = sqrt(ax^2+ay^2), phi = "
+        "atan2(ay, ax) built by the harness; at alpha = 0 the value 0 is asserted for surface, basis and gradient instead",
+        "fit round trip runs in float32 (spatial_frequencies, shifts, lstsq): tolerance 1e-4 relative to |C10|+|C12| for the "
+        "aberration matrix, 1e-4 rad for the rotation, 1e-4 of the largest shift for the refitted field; largest errors "
+        "measured on the clean tree over 20 000 targeted cases: 2.4e-6, 4.9e-6 rad, 4.8e-6",
+        "identifiable domain of the fit: |C12| < |C10| (generated ratio <= 0.9) and |rotation| < pi/2 - 0.005; phi12 is "
+        "compared modulo pi through the matrix entries (C12 cos 2phi12, C12 sin 2phi12); for |rotation| >= pi/2 only the "
+        "refitted shift field is compared (the pair (rotation +- pi, -A) is the same field)",
+        "an alias and its canonical symbol are never put in the same dictionary (precedence is unspecified); unknown keys are "
+        "only placed where the site validates keys (top level of probe_params, not inside the nested 'aberration_coefs')",
+        "alias sites that run a whole alignment/search are judged by metamorphic relations that follow from the alias rule: "
+        "alias dictionary and canonical dictionary give the same fit (bit-for-bit expected, 1e-6 allowed); after a search the "
+        "coefficients in force evaluate (by aberration_surface) to the surface of their alias-resolved form and lie in the "
+        "searched grid/range",
+        "float32 evaluation of the surfaces is not compared (rounding only); complex_probe float32 grids are exercised by the "
+        "fit kind",
+    ],
     workers=(1, 16),
-    technique="property-based testing (Hypothesis)",
-    text="",
-    note="",
+    technique="property-based testing (Hypothesis): cross-representation identities on generated coefficient sets and points "
+    "(polar series vs Cartesian basis x converted coefficients, conversion round trips, merge additivity), analytic gradient "
+    "vs torch autograd, alias tables vs an independent reference table at every accepting site (incl. metamorphic "
+    "alias-vs-canonical runs of the public fitting/search entry points), inverse round trip shifts -> fit",
+    text="Generated-input search.  Each case is judged against the identities the property names; the independent parts of "
+    "the oracle are torch autograd (gradient), the harness's own alias table and polynomial (x+iy)^m reference series "
+    "(vq/refs/c12_ref.py, used for tolerance scales, alias meaning and naming the deviating side), and the generating "
+    "parameters of the fit round trip.  Exploration only: no absence claim.",
+    note="Trusts torch float64 arithmetic/autograd and numpy.  'Symbolically for all reals' is decided by generic-point "
+    "evaluation of fixed-degree trigonometric polynomials, not by a computer-algebra proof.",
     design="DESIGN.md §3 C12",
 )
